@@ -100,7 +100,7 @@ def _check(prop, tier, jobs, verbose, seed, t0, evid_path):
     covers = {}
     for r in results:
         c = S.CONTRACTS[r["key"]]
-        mode = "unbounded" if r["shape"] is None else "bounded"
+        mode = r["mode"]
         if r["error"]:
             if "target not found" in str(r["error"]):
                 degraded.setdefault(r["key"], []).append("target not found: " + str(r["error"]))
@@ -129,7 +129,7 @@ def _check(prop, tier, jobs, verbose, seed, t0, evid_path):
             backends[ob["backend"]]["queries"] += 1
             backends[ob["backend"]]["seconds"] += ob["time"]
             tbl = unb if mode == "unbounded" else bnd
-            ag = tbl.setdefault(ob["name"], {"queries": 0, "proved": 0, "refuted": 0, "unknown": 0, "time": 0.0, "kind": ob["kind"], "contract": r["key"], "partial": False})
+            ag = tbl.setdefault(ob["name"], {"queries": 0, "proved": 0, "refuted": 0, "unknown": 0, "skipped": 0, "time": 0.0, "kind": ob["kind"], "contract": r["key"], "partial": False})
             ag["queries"] += 1
             ag[ob["status"]] += 1
             ag["time"] += ob["time"]
@@ -163,7 +163,7 @@ def _check(prop, tier, jobs, verbose, seed, t0, evid_path):
     known = []
     seen_names = set()
     # prefer small bounded witnesses
-    refuted.sort(key=lambda ro: (ro[0]["shape"] is None, sum((ro[0]["shape"] or {}).values()) if ro[0]["shape"] else 0))
+    refuted.sort(key=lambda ro: (ro[0]["mode"] == "unbounded", sum((ro[0]["shape"] or {}).values()) if ro[0]["shape"] else 0))
     replay_dir = os.path.join(VERIF, "replays", prop)
     for r, ob in refuted:
         if ob["name"] in seen_names:
@@ -171,7 +171,7 @@ def _check(prop, tier, jobs, verbose, seed, t0, evid_path):
         seen_names.add(ob["name"])
         path, nat = D.native_replay(prop, modname, r["key"], r["shape"], ob, replay_dir)
         f = kf_match(kf, prop, ob["name"])
-        ent = {"obligation": ob["name"], "replay": path, "reproduced": bool(nat.get("reproduced")), "native": nat, "mode": "unbounded" if r["shape"] is None else "bounded%s" % (r["shape"],)}
+        ent = {"obligation": ob["name"], "replay": path, "reproduced": bool(nat.get("reproduced")), "native": nat, "mode": "%s%s" % (r["mode"], r["shape"] or "")}
         if f is not None:
             ent["finding"] = f.get("id")
             known.append(ent)
@@ -220,7 +220,8 @@ def _check(prop, tier, jobs, verbose, seed, t0, evid_path):
         samples.append({"obligation": n, "mode": "unbounded", "queries": a["queries"], "status": "discharged" if n in discharged else "open", "solver_s": round(a["time"], 3)})
     for n, a in list(bounded_total.items())[:4]:
         samples.append({"obligation": n, "mode": "bounded", "queries": a["queries"], "status": "ok" if n in bounded_ok else "open", "solver_s": round(a["time"], 3)})
-    shapes_used = sorted({json.dumps(r["shape"], sort_keys=True) for r in results if r["shape"] is not None})
+    shapes_used = sorted({json.dumps(r["shape"], sort_keys=True) for r in results if r["mode"] == "bounded"})
+    proof_dims = sorted({"%s: %s" % (r["key"].split(":")[1], json.dumps(r["shape"], sort_keys=True)) for r in results if r["mode"] == "unbounded" and r["shape"]})
     from . import lib as L
 
     trusted = sorted(n for n in notes if n.startswith("lib:") or n.startswith("A-"))
@@ -247,6 +248,7 @@ def _check(prop, tier, jobs, verbose, seed, t0, evid_path):
             "note": "same contracts, concrete collection shapes, symbolic contents; stand-in, not counted in discharged",
             "only_bounded": only_bounded[:200],
         },
+        "proof_units_with_concrete_dimensions": proof_dims,
         "undecided": sorted(undecided)[:100],
         "degraded_to_bounded": degraded,
         "vacuity": {"covers": covers, "canaries_refuted": canaries["refuted"], "canaries_failed": canaries["other"]},
